@@ -197,14 +197,13 @@ impl ValidatorSync for KeepSortedValidator {
                                         )
                                     })?;
                                 if cmp == violating_ord {
-                                    let violation_line_number = block_with_context
+                                    let violation_line_number =
+                                        block_with_context.block.content_line_number(line_number);
+                                    let column_offset = block_with_context
                                         .block
-                                        .start_tag_position_range
-                                        .start()
-                                        .line
-                                        + line_number;
-                                    let line_character_start = *curr_range.start();
-                                    let line_character_end = *curr_range.end();
+                                        .content_line_column_offset(line_number);
+                                    let line_character_start = *curr_range.start() + column_offset;
+                                    let line_character_end = *curr_range.end() + column_offset;
                                     violations
                                         .entry(file_path.clone())
                                         .or_insert_with(Vec::new)
